@@ -152,7 +152,6 @@ func (vc *VC) prelude() {
 	vc.emit("(declare-fun ea_arr (Int) Int)")
 	vc.emit("(declare-fun ea_idx (Int) Int)")
 	vc.emit("(declare-fun akind (Int) Int)")
-	vc.assume("(forall ((a Int) (i Int)) (! (and (= (ea_arr (ea a i)) a) (= (ea_idx (ea a i)) i) (= (base (ea a i)) (base a)) (= (akind (ea a i)) 1) (not (= (ea a i) 0))) :pattern ((ea a i))))")
 	vc.assume("(= (base 0) 0)")
 	vc.emit("(declare-fun slen (Str) Int)")
 	vc.assume("(forall ((s Str)) (! (>= (slen s) 0) :pattern ((slen s))))")
@@ -643,15 +642,58 @@ func (vc *VC) fieldAddrFn(st types.Type, u *types.Struct, i int) string {
 		vc.declareFun(name, []string{"Int"}, "Int")
 		inv := "|inv" + name[1:]
 		vc.declareFun(inv, []string{"Int"}, "Int")
-		kind := 1000 + vc.P.TypeID("field:"+name)
-		vc.assume(fmt.Sprintf("(forall ((r Int)) (! (and (= (%s (%s r)) r) (= (base (%s r)) (base r)) (= (akind (%s r)) %d) (not (= (%s r) 0))) :pattern ((%s r))))", inv, name, name, name, kind, name, name))
 	}
 	return name
 }
 
 func (vc *VC) fieldAddr(stT types.Type, i int, base string) string {
 	u := stT.Underlying().(*types.Struct)
-	return "(" + vc.fieldAddrFn(stT, u, i) + " " + base + ")"
+	name := vc.fieldAddrFn(stT, u, i)
+	t := "(" + name + " " + base + ")"
+	if vc.boxFacts == nil {
+		vc.boxFacts = map[string]bool{}
+	}
+	inv := "|inv" + name[1:]
+	kind := 1000 + vc.P.TypeID("field:"+name)
+	if strings.Contains(base, "?") { // under a binder: quantified axiom
+		if !vc.boxFacts["q:"+name] {
+			vc.boxFacts["q:"+name] = true
+			vc.assume(fmt.Sprintf("(forall ((r Int)) (! (and (= (%s (%s r)) r) (= (base (%s r)) (base r)) (= (akind (%s r)) %d) (not (= (%s r) 0))) :pattern ((%s r))))", inv, name, name, name, kind, name, name))
+		}
+		return t
+	}
+	if !vc.boxFacts[t] {
+		vc.boxFacts[t] = true
+		vc.assume(fmt.Sprintf("(and (= (%s %s) %s) (= (base %s) (base %s)) (= (akind %s) %d) (not (= %s 0)))", inv, t, base, t, base, t, kind, t))
+	}
+	return t
+}
+
+// ea: element address; the injectivity facts are instantiated on the term unless it is under a binder
+func (vc *VC) ea(a, i string) string {
+	t := "(ea " + a + " " + i + ")"
+	if vc.boxFacts == nil {
+		vc.boxFacts = map[string]bool{}
+	}
+	if strings.Contains(t, "?") {
+		vc.needEAQuant()
+		return t
+	}
+	if !vc.boxFacts[t] {
+		vc.boxFacts[t] = true
+		vc.assume(fmt.Sprintf("(and (= (ea_arr %s) %s) (= (ea_idx %s) %s) (= (base %s) (base %s)) (= (akind %s) 1) (not (= %s 0)))", t, a, t, i, t, a, t, t))
+	}
+	return t
+}
+
+func (vc *VC) needEAQuant() {
+	if vc.boxFacts == nil {
+		vc.boxFacts = map[string]bool{}
+	}
+	if !vc.boxFacts["q:ea"] {
+		vc.boxFacts["q:ea"] = true
+		vc.assume("(forall ((a Int) (i Int)) (! (and (= (ea_arr (ea a i)) a) (= (ea_idx (ea a i)) i) (= (base (ea a i)) (base a)) (= (akind (ea a i)) 1) (not (= (ea a i) 0))) :pattern ((ea a i))))")
+	}
 }
 
 // load a value of type t from address addr
@@ -675,7 +717,7 @@ func (vc *VC) load(st *State, addr string, t types.Type) string {
 		}
 		r := vc.zero(t)
 		for i := 0; i < n; i++ {
-			r = fmt.Sprintf("(store %s %d %s)", r, i, vc.load(st, fmt.Sprintf("(ea %s %d)", addr, i), u.Elem()))
+			r = fmt.Sprintf("(store %s %d %s)", r, i, vc.load(st, vc.ea(addr, fmt.Sprint(i)), u.Elem()))
 		}
 		return r
 	}
@@ -699,7 +741,7 @@ func (vc *VC) store(st *State, addr string, t types.Type, val string) {
 			return
 		}
 		for i := 0; i < n; i++ {
-			vc.store(st, fmt.Sprintf("(ea %s %d)", addr, i), u.Elem(), fmt.Sprintf("(select %s %d)", val, i))
+			vc.store(st, vc.ea(addr, fmt.Sprint(i)), u.Elem(), fmt.Sprintf("(select %s %d)", val, i))
 		}
 		return
 	}
